@@ -825,6 +825,14 @@ def run(rep, pdb, tier):
                     rep.add("tested-vector/%s/%s/%s#%d" % (name, case, show(V, ctx), [e[1] for e in m.exits if e[0] == "ok"].index(node) + 1),
                             "the vector whose norm was tested is the residual of the x that is returned (pending x updates are applied before returning)",
                             not z, node, "V - r_top + A*(x - x_top) = %s" % (_show_vec(z, ctx) if z else "0"), proof=True)
+        # ---- success is confirmed on the residual recomputed from the x that is returned
+        oks = sorted([n for n in rets if any(a is sv.main for a in ancestors(n)) and _is_ok(n)], key=_pos)
+        for k_, node in enumerate(oks, 1):
+            okc, det = confirmed(sv, node)
+            rep.add("confirmed-success/%s#%d" % (name, k_),
+                    "every return Ok(..) inside the loop is also control-dependent on `||b - A*x|| / normb <= tol` with the residual recomputed from x itself after the last update of x "
+                    "(the recurrence residual is updated independently of x: rounding in near-breakdown steps, overflow of x, or components of x that A never reads let the two part company, "
+                    "and `NaN <= tol` is false, so the confirmation also keeps a non-finite x from being reported as solved)", okc, node, det)
         # pre-loop Ok(0): tested against the initial residual
         for r_ in rets:
             v = strip(r_["e"]) if r_.get("e") is not None else None
@@ -842,10 +850,56 @@ def run(rep, pdb, tier):
     rep.floor("residual-tracks-iterate/", 5)
     rep.floor("ok-tested/", 8)
     rep.floor("tested-vector/", 6)
+    rep.floor("confirmed-success/", 5)
     rep.assumptions += ["r_top = b - A*x_top at loop entry (established by initial-residual, preserved by residual-tracks-iterate: an inductive invariant in exact arithmetic)",
-                        "finiteness of x at success and the floating-point drift between the recurrence residual and the true residual are not decided statically"]
+                        "confirmed-success decides that a success report is conditional on the residual recomputed from x (hence on a finite x); the size of the rounding error of that one recomputation (eps*||A||*||x||) is not decided"]
     rep.trusted += ["linear-combination abstract domain with polynomial coefficient comparison over Q (rules/c08.py)"]
     return {}
+
+
+def _is_ok(n):
+    v = strip(n["e"]) if n.get("e") is not None else None
+    return v is not None and v.get("k") == "Call" and v["f"].get("fn", "").endswith("::Ok")
+
+
+def confirmed(sv, node):
+    """The Ok exit `node` is dominated by `norm_2(b - A*x) / n <= tol`, evaluated after the last write to x on the way to it."""
+    ctx = sv.ctx
+    want = ("op", "-", B_, ("call", MULT, P(0), X_))
+    det = "no dominating test of the recomputed residual"
+    for a in ancestors(node):
+        if a is sv.main:
+            break
+        if a.get("k") != "If" or not any(z is a.get("then") for z in [node] + list(ancestors(node))):
+            continue
+        for at in cond_atoms(ctx, a["cond"], True):
+            if not (at[0] == "cmp" and at[1] in ("<=", "<") and at[3] == TOL):
+                continue
+            t, start = at[2], _pos(a)
+            if t[0] == "var":
+                b = ctx.binds.get(t[1])
+                d = ctx.def_term(t)
+                if d is None or b is None or b.mut or ctx.assigns.get(t[1]):
+                    continue
+                t, start = d, _pos(b.node)
+            nd = norm_def(t)
+            if nd is None:
+                continue
+            V = nd[0]
+            if V[0] == "var":
+                bv = ctx.binds.get(V[1])
+                dv = ctx.def_term(V)
+                if dv is None or bv is None or bv.mut or ctx.assigns.get(V[1]) or ctx.mutations.get(V):
+                    continue
+                V, start = dv, min(start, _pos(bv.node))
+            if V != want:
+                continue
+            late = [m for (_, m) in ctx.mutations.get(X_, []) if start < _pos(m) < _pos(node)]
+            if late:
+                det = "x is written at %s after the residual was recomputed" % loc(late[0])
+                continue
+            return True, "confirmed by %s" % show(("op", at[1], at[2], at[3]), ctx)
+    return False, det
 
 
 def _show_vec(z, ctx):
